@@ -1,7 +1,7 @@
 (* C08 - combinatorial operators: graph Laplacian = degree - adjacency; adjacency / incidence patterns (one entry per incidence,
    documented sign and weight); tetrahedral dual Laplacian; mass matrices are diagonal with the stated totals.
    Commutative ring with Leibniz equality + "oofZ is the canonical map on naturals" (section hypotheses); axiom-free. *)
-From Coq Require Import ZArith List Bool Ring Lia ZifyBool Arith.
+From Coq Require Import String ZArith List Bool Ring Lia ZifyBool Arith.
 Import ListNotations.
 Require Import MV.Lib.Base MV.C08.Ops MV.C08.Gen MV.C08.Model MV.C08.Proofs_Struct MV.C08.Proofs_Dual.
 Open Scope Z_scope.
@@ -403,3 +403,25 @@ Proof.
 Qed.
 
 End Graph.
+
+(* the documented signatures: option defaults and the positional order of the parameters (generated from the `def` lines) *)
+Theorem documented_signatures :
+  dflt_laplacian_cotan = true /\ dflt_cotan_edge_diagonal_inverse = true /\ dflt_laplacian_triangles_cotan = true /\
+  dflt_laplacian_edges_cotan = true /\ dflt_gradient_as_complex = true /\
+  dflt_area_weight_matrix_inverse = false /\ dflt_area_weight_matrix_sqrt = false /\
+  dflt_area_weight_matrix_faces_inverse = false /\ dflt_area_weight_matrix_edges_inverse = false /\
+  dflt_volume_weight_matrix_inverse = false /\ dflt_volume_weight_matrix_sqrt = false /\
+  dflt_volume_weight_matrix_cells_inverse = false /\ dflt_volume_weight_matrix_cells_sqrt = false /\
+  dflt_adjacency_matrix_weights = "one"%string /\ dflt_vertex_to_edge_operator_oriented = false /\
+  params_laplacian = ["mesh"; "cotan"; "connection"; "order"]%string /\
+  params_cotan_edge_diagonal = ["mesh"; "inverse"]%string /\
+  params_laplacian_triangles = ["mesh"; "cotan"; "connection"; "order"]%string /\
+  params_laplacian_edges = ["mesh"; "cotan"; "connection"; "order"]%string /\
+  params_gradient = ["mesh"; "conn"; "as_complex"]%string /\
+  params_area_weight_matrix = ["mesh"; "inverse"; "sqrt"; "format"]%string /\
+  params_area_weight_matrix_faces = ["mesh"; "inverse"; "format"]%string /\
+  params_area_weight_matrix_edges = ["mesh"; "inverse"]%string /\
+  params_volume_weight_matrix = ["mesh"; "inverse"; "sqrt"; "format"]%string /\
+  params_volume_weight_matrix_cells = ["mesh"; "inverse"; "sqrt"; "format"]%string /\
+  params_adjacency_matrix = ["mesh"; "weights"]%string /\ params_vertex_to_edge_operator = ["mesh"; "oriented"]%string.
+Proof. repeat split. Qed.
